@@ -3337,7 +3337,7 @@ class Qube(object):
 
         # Swap and multiply by reciprocal...
         if self._nrank_ == 0:
-            return self.reciprocal(recursive)._mul_by_scalar(arg, recursive)
+            return arg.reciprocal(recursive)._mul_by_scalar(self, recursive)
 
         # Matrix / matrix is multiply by inverse matrix
         if self._rank_ == 2 and arg._rank_ == 2:
